@@ -341,9 +341,13 @@ def job_padded_lengths(res, n, nb, prefer):
             if len(bk) != len(c['buckets'] or []): res.obs.append(Ob('bucket numbers are concrete on every path', 'inconclusive', key='setup-engine')); continue
             # the bucket number of a bunch is the position of its entry in the filling pattern, counted from the end (main: "enumeration is inverse to the x coordinate"): entry i of nb -> bucket nb-1-i,
             # for exactly the entries with a positive current on this path
-            filled = []
+            filled = []; pcs = {str(c_).replace(' ', '') for c_ in s.pc}
             for i in range(nb):
-                ci = z3.Real('current%d' % i); so = z3.Solver(); so.add(*s.pc)
+                nm_ = 'current%d' % i
+                if ('%s>0' % nm_) in pcs or ('Not(%s<=0)' % nm_) in pcs: filled.append(True); continue
+                if ('%s<=0' % nm_) in pcs or ('Not(%s>0)' % nm_) in pcs or ('%s==0' % nm_) in pcs: filled.append(False); continue
+                # not decided syntactically: ask the solver about this one symbol only (bounds of current_i among the path's constraints that mention nothing else)
+                ci = z3.Real(nm_); so = z3.Solver(); so.set('timeout', 2000); so.add(*[c_ for c_ in s.pc if ms.syms_of(c_) <= {nm_}])
                 so.push(); so.add(ci > 0); pos = so.check() == z3.sat; so.pop(); so.push(); so.add(ci <= 0); zer = so.check() == z3.sat; so.pop()
                 filled.append(True if (pos and not zer) else False if (zer and not pos) else None)
             if None not in filled and ('buckets-checked', tuple(filled), tuple(bk)) not in seen:
